@@ -21,6 +21,7 @@ TRUSTED = [
     "C06: 'geometric volume' of a cell is the exact integral of det(dX/dr) over the reference cell (computed spec-side by exact termwise integration of the polynomial obtained from the element's shape functions, which are under the C04 contract)",
     "C06: reproduction on the whole polynomial space follows from the monomial obligations by linearity (paper lemma); float32 copies (astype) are not decided (bounded: paired float run only)",
     "C06: MINI templates: the cell is the 4/5-point cell of mesh.add_midpoints_*; the bubble point is a free point (generic), constants are represented with a zero bubble dof, linear functions by sampling at all points (isoparametric)",
+    "C06: the opaque-element contract is instantiated in 2D only (a fully symbolic 3x3 Jacobian with three inverse factors exceeds memory); the 3D code path of Region.reload differs only by the dimension of the same einsum strings and by det/inv (C17), and is exercised with the real elements on generic tetra / affine hexahedron cells; the hessian of linear fields on a *fully generic* hexahedron is not decided (cost)",
     "C06: curved tet10 cells: the default 4-point rule is not exact for the cubic Jacobian determinant of a curved quadratic tetrahedron, so the volume clause for RegionQuadraticTetra is stated on straight-edged (affine) generic cells, as the property's 'where theory says so' allows; all other templates are fully generic in quick/thorough as listed",
 ]
 
@@ -208,7 +209,7 @@ def region_contract(vk, cfg):
         vk.canary("grad(x)==0", f.grad()[0], 0 * f.grad()[0])
 
 
-@contract("C06", "hessian", configs=[dict(template=t, cell=c, **({"tier": "thorough"} if (t in ("RegionHexahedron", "RegionQuadraticQuad") and c == "generic") else {})) for t in ("RegionQuad", "RegionTriangle", "RegionTetra", "RegionHexahedron", "RegionQuadraticQuad") for c in ("generic", "affine")])
+@contract("C06", "hessian", configs=[dict(template=t, cell=c, **({"tier": "thorough"} if (t == "RegionQuadraticQuad" and c == "generic") else {})) for t in ("RegionQuad", "RegionTriangle", "RegionTetra", "RegionHexahedron", "RegionQuadraticQuad") for c in ("generic", "affine") if not (t == "RegionHexahedron" and c == "generic")])
 def hessian_contract(vk, cfg):
     """hessian of nodal samples: zero for constants and linear functions on arbitrarily distorted cells;
     exact for all monomials up to the element order on affine cells"""
@@ -452,3 +453,74 @@ def field_kinds(vk, cfg):
     vk.ensures_eq("extract==I+grad", F, spec + (ring.lift(eye) if vk.sym else eye))
     vk.ensures_eq("extract(sym)", f.extract(grad=True, sym=True, add_identity=False), (spec + np.einsum("ij...->ji...", spec)) / 2)
     vk.canary("extract==grad", F, spec) if vk.sym else None
+
+
+@contract("C06", "opaque_element", configs=[dict(dim=2, npc=3), dict(dim=2, npc=4)])
+def opaque_element(vk, cfg):
+    """Region.reload on an *opaque element* (symbolic h, dhdr, d2hdrdr at each quadrature point; symbolic
+    node coordinates): the push-forward identities hold for ANY element formulation, hence -- with the C04
+    identities sum_a dh_a/dr == 0 and the isoparametric map -- constants and linear functions are
+    reproduced (value, gradient, hessian) on arbitrarily distorted cells by every template"""
+    dim, npc = cfg["dim"], cfg["npc"]
+    nq = cfg.get("nq", 2)
+    vk.real(fem.Region.reload)
+    vk.real(fem.Field.grad)
+    vk.real(fem.Field.hess)
+    hq = vk.reals("h", (nq, npc), near=1.0 / npc, spread=0.2)
+    gq = vk.reals("dhdr", (nq, npc, dim), near=np.broadcast_to(np.vstack([-np.ones(dim), np.eye(dim)] + [np.ones(dim) * 0.3] * (npc - dim - 1))[None], (nq, npc, dim)), spread=0.15)
+    Hq = vk.reals("d2hdrdr", (nq, npc, dim, dim), near=0.0, spread=0.3)
+    Hq = (Hq + np.swapaxes(Hq, 2, 3)) / 2
+    qpts = np.arange(nq * dim, dtype=float).reshape(nq, dim)
+
+    class El:
+        points = np.zeros((npc, dim))
+
+        def function(self, r):
+            return hq[int(np.argmin(np.abs(qpts - np.asarray(r, dtype=float)).sum(1)))]
+
+        def gradient(self, r):
+            return gq[int(np.argmin(np.abs(qpts - np.asarray(r, dtype=float)).sum(1)))]
+
+        def hessian(self, r):
+            return Hq[int(np.argmin(np.abs(qpts - np.asarray(r, dtype=float)).sum(1)))]
+
+    class Qd:
+        points = qpts
+        weights = np.ones(nq) * 0.5
+        npoints, dim_ = nq, dim
+
+    Qd.dim = dim
+    X = vk.reals("X", (npc, dim), near=np.vstack([np.zeros(dim), np.eye(dim)] + [np.ones(dim) * 0.6] * (npc - dim - 1)), spread=0.1)
+    mesh = fem.Mesh(X, np.arange(npc).reshape(1, -1), None)
+    # valid cell: det(sum_a X_a (x) dhdr_a) > 0 at the quadrature points
+    Js = []
+    for q in range(nq):
+        J = ref_einsum("ai,aj->ij", X, gq[q])
+        d = det_ref(J)
+        Js.append(J)
+        if vk.sym:
+            oracle.assume(co(d), ">")
+        elif float(d) <= 1e-3:
+            raise Skip("invalid")
+    region = fem.Region(mesh, El(), Qd(), grad=True, hess=True)
+    eye = np.broadcast_to((ring.lift(np.eye(dim)) if vk.sym else np.eye(dim)).reshape(dim, dim, 1, 1), (dim, dim, nq, 1))
+    vk.ensures_eq("dXdr==sum_a X_a (x) dhdr_a", region.dXdr[..., 0], np.moveaxis(np.array(Js), 0, -1))
+    vk.ensures_eq("drdX.dXdr==I", ref_einsum("ikqc,kjqc->ijqc", region.drdX, region.dXdr), eye)
+    vk.ensures_eq("dhdX.dXdr==dhdr", ref_einsum("aiqc,ijqc->ajqc", region.dhdX, region.dXdr)[..., 0], np.moveaxis(gq, 0, -1))
+    # isoparametric identities for any element: sum_a X_a (x) dhdX_a == I
+    vk.ensures_eq("sum_a X_a (x) dhdX_a==I", ref_einsum("ai,ajqc->ijqc", X, region.dhdX), eye)
+    # hessian push-forward: chain rule  d2h/dXdX = drdX^T (d2h/drdr - dh/dX . d2X/drdr) drdX
+    d2X = ref_einsum("am,qaij->mijq", X, Hq)
+    inner = np.moveaxis(Hq, 0, -1) - ref_einsum("amq,mijq->aijq", region.dhdX[..., 0], d2X)
+    spec = ref_einsum("aijq,ikq,jlq->aklq", inner, region.drdX[..., 0], region.drdX[..., 0])
+    vk.ensures_eq("d2hdXdX==chain-rule", region.d2hdXdX[..., 0], spec)
+    # hence the hessian of each coordinate function (a linear field) vanishes on any cell
+    vk.ensures_zero("hessian-of-linear-field==0", ref_einsum("am,aklqc->mklqc", X, region.d2hdXdX))
+    # and with sum_a dhdr_a == 0, sum_a d2hdrdr_a == 0 (C04: partition of unity) constants have zero gradient/hessian:
+    # stated as the linear relations the region must preserve
+    vk.ensures_eq("sum_a dhdX_a==(sum_a dhdr_a).drdX", np.sum(region.dhdX, axis=0), ref_einsum("qi,ijqc->jqc", np.sum(gq, axis=1), region.drdX))
+    f = fem.Field(region, dim=1, values=X[:, :1])
+    vk.ensures_eq("Field.grad(x_0)==e_0", f.grad()[0], eye[0])
+    vk.ensures_zero("Field.hess(x_0)==0", f.hess()[0])
+    if vk.sym:
+        vk.canary("d2hdXdX==naive-push-forward", region.d2hdXdX[..., 0], ref_einsum("aijq,ikq,jlq->aklq", np.moveaxis(Hq, 0, -1), region.drdX[..., 0], region.drdX[..., 0]))
